@@ -21,8 +21,11 @@ def main(argv=None):
         mod = importlib.import_module(f'lsa.props.{pid.lower()}')
         repo = Repo()
         chk = Check(pid, a.tier)
+        from .resilient import pinned_tree, run_sections
+        strict = pinned_tree(repo) and os.environ.get('LSA_LENIENT') != '1'
+        chk.strict = strict
         try:
-            mod.run(chk, repo, a.tier)
+            run_sections(mod, chk, repo, a.tier, strict)
         except AnalysisError as e:
             # a definite violation found before the analysis broke down still stands
             if any(o.ok is False for o in chk.obligations):
